@@ -71,3 +71,16 @@ package revocation
 //@   ensures [invalid=>error-no-results] (len(certChain) == 0 || x509util.ValidateChain$(certChain, r.certChainPurpose) != nil) ==> result == nil && typeof(err) == type(result.InvalidChainError)
 //@   ensures [valid=>one-per-cert] (len(certChain) > 0 && x509util.ValidateChain$(certChain, r.certChainPurpose) == nil) ==> err == nil && len(result) == len(certChain)
 //@   ensures [per-certificate] err == nil ==> forall k :: 0 <= k && k < len(result) - 1 ==> SlotOK(certChain[k], certChain[k+1], result[k], signingTime)
+
+// ---- constructors: they establish what ValidateContext requires of its receiver (a non-nil OCSP client, a CRL
+// fetcher, one of the two supported purposes)
+//@ func New(httpClient)
+//@   ensures [nil-client] httpClient == nil <==> err != nil
+//@   ensures [ok] err == nil ==> typeof(result) == type(*revocation) && fresh(unbox(result, type(*revocation))) && unbox(result, type(*revocation)).ocspHTTPClient == httpClient && unbox(result, type(*revocation)).crlFetcher != nil && unbox(result, type(*revocation)).certChainPurpose == purpose.CodeSigning
+//@   ensures [err] err != nil ==> result == nil
+//@ func NewWithOptions(opts)
+//@   ensures [purpose] err == nil <==> (opts.CertChainPurpose == purpose.CodeSigning || opts.CertChainPurpose == purpose.Timestamping)
+//@   ensures [ok] err == nil ==> typeof(result) == type(*revocation) && fresh(unbox(result, type(*revocation))) && unbox(result, type(*revocation)).ocspHTTPClient != nil && unbox(result, type(*revocation)).crlFetcher != nil && unbox(result, type(*revocation)).certChainPurpose == opts.CertChainPurpose
+//@   ensures [given-kept] err == nil ==> (opts.OCSPHTTPClient != nil ==> unbox(result, type(*revocation)).ocspHTTPClient == opts.OCSPHTTPClient) && (opts.CRLFetcher != nil ==> unbox(result, type(*revocation)).crlFetcher == opts.CRLFetcher)
+//@   ensures [default-timeouts] err == nil ==> (opts.OCSPHTTPClient == nil ==> unbox(result, type(*revocation)).ocspHTTPClient.Timeout == 2 * time.Second)
+//@   ensures [err] err != nil ==> result == nil
